@@ -262,13 +262,15 @@ def leap_seconds_num (year month : Num) : PyRes Int :=
     | some 0 => .ok (leap_values.getLastD 0)
     | some (i + 1) => .ok (leap_values.getD i 0)
 
-/-- `Epoch.get_last_leap_second()` (Epoch.py:953-965) -/
-def get_last_leap_second : Int × Int × Num × Int :=
-  let lyear : Num := leap_years.getLastD 0.0
-  let lseconds : Int := leap_values.getLastD 0
+/-- the body of `Epoch.get_last_leap_second()` (Epoch.py:953-965) for any last table entry `lyear: lseconds` -/
+def get_last_leap_second_of (lyear : Num) (lseconds : Int) : Int × Int × Num × Int :=
   let year : Int := pfloor lyear
   -- if lyear % 1 == 0.0: year -= 1; month = 12; day = 31.0  else: month = 6; day = 30.0
   if peq (pmod lyear 1.0) 0.0 then (year - 1, 12, 31.0, lseconds) else (year, 6, 30.0, lseconds)
+
+/-- `Epoch.get_last_leap_second()`: lyear = list_years[-1]; lseconds = LEAP_TABLE[lyear] -/
+def get_last_leap_second : Int × Int × Num × Int :=
+  get_last_leap_second_of (leap_years.getLastD 0.0) (leap_values.getLastD 0)
 
 /-! ### UTC -> TT in the constructor -/
 
